@@ -81,3 +81,21 @@ Print Assumptions C09_mutators_are_one_section.
 Theorem C09_no_mixin_mutators : forallb (fun x : str * str * bool => snd x) mutator_owners = true.
 Proof. exact gen_mutators_library_owned. Qed.
 Print Assumptions C09_no_mixin_mutators.
+
+(* what "one section" means, on execution paths that COUNT section entries (Proofs/StructSecs.v: a raise ends the path;
+   an if/else runs one alternative; a loop any number of iterations): every complete execution of every public mutator
+   enters exactly one load-and-save section, an execution cut short by a raise has entered at most one, and such an
+   execution exists (the statement is not vacuous) *)
+From SC Require Import Proofs.StructSecs.
+Theorem C09_every_mutator_run_enters_exactly_one_section : forall m n,
+  In m Structure.methods -> is_mutator (sm_name m) = true -> cpaths (sm_body m) n false -> n = 1.
+Proof. exact generated_mutators_enter_exactly_one_section. Qed.
+Print Assumptions C09_every_mutator_run_enters_exactly_one_section.
+Theorem C09_no_mutator_run_enters_two_sections : forall m n ab,
+  In m Structure.methods -> is_mutator (sm_name m) = true -> cpaths (sm_body m) n ab -> n <= 1.
+Proof. exact generated_mutators_never_enter_two_sections. Qed.
+Print Assumptions C09_no_mutator_run_enters_two_sections.
+Theorem C09_every_mutator_has_such_a_run : forall m,
+  In m Structure.methods -> is_mutator (sm_name m) = true -> cpaths (sm_body m) 1 false.
+Proof. exact generated_mutators_have_a_one_section_path. Qed.
+Print Assumptions C09_every_mutator_has_such_a_run.
